@@ -261,7 +261,7 @@ def register(reg):
     fn("Partition.deepen", props="C01 C03 C13",
        params={},
        requires=treewf("self"),
-       modifies=["*P_node.children", "self.depth", "list(self.node_list)"],
+       modifies=["P_node.children n where n in self.node_list[self.depth]", "self.depth", "list(self.node_list)"],
        ensures=treewf("self") + [
            ("depth", "self.depth == old(self.depth) + 1", "C03 C13"),
            ("layers-kept", "all(self.node_list[h] is old(self.node_list[h]) and len(self.node_list[h]) == old(len(self.node_list[h])) "
